@@ -8,6 +8,8 @@ import itertools
 import math
 
 import mpmath as mp
+from fractions import Fraction
+
 import numpy as np
 
 from mc import framework as fw
@@ -194,6 +196,86 @@ def prog_key(prog):
     return prog[0]
 
 
+# ---------------------------------------------------------------------------------------------
+# ring operations on two INDEPENDENT bicomplex operands (a single-variable composition only ever combines values that
+# stem from the same z): exact rational arithmetic on dyadic components
+
+class _CF(object):
+    """complex number with Fraction parts"""
+    __slots__ = ('re', 'im')
+
+    def __init__(self, re, im=0):
+        self.re, self.im = Fraction(re), Fraction(im)
+
+    def __add__(self, o):
+        return _CF(self.re + o.re, self.im + o.im)
+
+    def __sub__(self, o):
+        return _CF(self.re - o.re, self.im - o.im)
+
+    def __mul__(self, o):
+        return _CF(self.re * o.re - self.im * o.im, self.re * o.im + self.im * o.re)
+
+    def __truediv__(self, o):
+        n = o.re * o.re + o.im * o.im
+        return _CF((self.re * o.re + self.im * o.im) / n, (self.im * o.re - self.re * o.im) / n)
+
+    def __neg__(self):
+        return _CF(-self.re, -self.im)
+
+
+def _bc_exact(op, z, w):
+    """z, w: pairs (z1, z2) of _CF; returns the exact pair"""
+    (z1, z2), (w1, w2) = z, w
+    if op == '+':
+        return z1 + w1, z2 + w2
+    if op == '-':
+        return z1 - w1, z2 - w2
+    if op == '*':
+        return z1 * w1 - z2 * w2, z1 * w2 + z2 * w1
+    den = w1 * w1 + w2 * w2
+    n1, n2 = z1 * w1 + z2 * w2, z2 * w1 - z1 * w2
+    return n1 / den, n2 / den
+
+
+OPERANDS = {'complex-only': ((1.5, 0.125), (0.0, 0.0)), 'j-part-only': ((0.75, 0.0), (0.0625, 0.0)),
+            'generic': ((2.0, 0.25), (0.5, -0.125)), 'real': ((-1.25, 0.0), (0.0, 0.0)),
+            'generic2': ((0.5, 0.5), (0.0, 0.25)), 'tiny-parts': ((3.0, 2.0 ** -20), (2.0 ** -20, 2.0 ** -40))}
+
+
+def work_binary(chunk):
+    from numdifftools.multicomplex import Bicomplex
+    acc = fw.Acc()
+    names = sorted(OPERANDS)
+    for op in chunk:
+        for na in names:
+            for nb in names:
+                (a1, a2), (b1, b2) = OPERANDS[na], OPERANDS[nb]
+                exact = _bc_exact(op, (_CF(*a1), _CF(*a2)), (_CF(*b1), _CF(*b2)))
+                want = [float(exact[0].re), float(exact[0].im), float(exact[1].re), float(exact[1].im)]
+                allow = 64 * EPS * (1.0 + max(abs(v) for v in want))
+                for form in ('scalar', 'array'):
+                    prob = None
+                    try:
+                        if form == 'scalar':
+                            za, zb = Bicomplex(complex(*a1), complex(*a2)), Bicomplex(complex(*b1), complex(*b2))
+                        else:
+                            za = Bicomplex(np.array([complex(*a1)] * 2), np.array([complex(*a2)] * 2))
+                            zb = Bicomplex(np.array([complex(*b1)] * 2), np.array([complex(*b2)] * 2))
+                        out = {'+': lambda: za + zb, '-': lambda: za - zb, '*': lambda: za * zb, '/': lambda: za / zb}[op]()
+                        z1, z2 = np.ravel(np.asarray(out.z1, dtype=complex)), np.ravel(np.asarray(out.z2, dtype=complex))
+                        got = [float(z1[-1].real), float(z1[-1].imag), float(z2[-1].real), float(z2[-1].imag)]
+                        if not all(abs(g - w_) <= allow for g, w_ in zip(got, want)):
+                            prob = 'got (re, i, j, ij) = %r, exact %r' % (got, want)
+                    except Exception as e:      # noqa: BLE001
+                        prob = 'raised %s: %s' % (type(e).__name__, e)
+                    acc.case(('binary', op, na, nb, form), nontrivial=True, cell='binary/op' + op, outcome=prob is None)
+                    if prob:
+                        acc.violation('C12:op%s:two-independent-operands' % op, dict(kind='binary', op=op, a=na, b=nb, form=form),
+                                      '(%s) %s (%s), %s operands: %s' % (na, op, nb, form, prob), 1)
+    return acc
+
+
 def work(chunk, tier='quick'):
     acc = fw.Acc()
     for prog in chunk:
@@ -283,9 +365,10 @@ def array_check(prog):
 def run(ctx):
     progs = programs(ctx.tier)
     acc = ctx.pmap(work, progs, chunk=1 if ctx.quick else 4, tier=ctx.tier)
+    acc.merge(ctx.pmap(work_binary, list('+-*/'), chunk=1))
     for p in progs[:3] + progs[30:32]:
         acc.sample(dict(f=jets.show(p), base_points=BASES, perturbation_example=perturbations(0.3, ctx.tier)[:2]))
-    req = ['fn/' + f for f in FUNCS] + ['fn/op' + o for o in '+-*/'] + [
+    req = ['binary/op' + o for o in '+-*/'] + ['fn/' + f for f in FUNCS] + ['fn/op' + o for o in '+-*/'] + [
         'fn/pow-x-int', 'fn/pow-x-real', 'fn/pow-bicomplex-exponent', 'step/tiny', 'step/finite']
     rule = ('%d programs (all 26 functions of the class, ring operations, reflected forms, integer/real/bicomplex '
             'powers%s) x base points %r (inside the real domain with margin, decided by the jet majorant) x 32 '
@@ -300,6 +383,10 @@ def run(ctx):
 
 
 def replay(case):
+    if case.get('kind') == 'binary':
+        a = work_binary([case['op']])
+        bad = [r['detail'] for k, (n, recs) in a.viol.items() for r in recs if r['case'].get('a') == case['a'] and r['case'].get('b') == case['b']]
+        return not bad, '%r -> %s' % (case, bad or 'exact')
     prog = _tuplify(case['prog'])
     if case.get('kind') == 'array':
         txt = array_check(prog)
